@@ -654,3 +654,40 @@ def body_diff_daily_hours(ctx: Any, py: Impl, cy: Impl, nint: int) -> None:
     with K.patched_globals(wm, **cp):
         b = wh.get_daily_hours(0)
     ctx.check(a == b, "get_daily_hours: same value (C float vs Python double)")
+
+
+# ---- C02 K1: interval kernel vs the declarative calendar -----------------------------------------
+
+def body_wh_spec(ctx: Any, impl: Impl, nint: int) -> None:
+    """WorkingHours.onShift == declarative calendar: an interval declared on day d covers [d*1440+s, d*1440+e) if e > s,
+    else [d*1440+s, (d+1)*1440+e) (a cross-midnight interval belongs to the day on which it starts), modulo the week"""
+    wm = wh_module()
+    wd, h, mi = ctx.var("weekday", 0, 6), ctx.var("hour", 0, 23), ctx.var("minute", 0, 59)
+    wh = wm.WorkingHours(_WHProj(_FakeDT(wd, h, mi)))
+    wh._hours, desc = make_hours(ctx, nint)
+    wh._custom_hours_set = True
+    with K.patched_globals(wm, **impl.patches("working_hours")):
+        got = wh.onShift(0)
+    now = wd * 1440 + h * 60 + mi
+    exp: Any = False
+    for (d, sh, sm, eh, em) in desc:
+        s, e = sh * 60 + sm, eh * 60 + em
+        if ctx.symbolic:
+            a = d * 1440 + s
+            b = K.SInt(z3.If((e > s).t if isinstance(e > s, K.SBool) else z3.BoolVal(bool(e > s)), K._it(d * 1440 + e), K._it((d + 1) * 1440 + e)))
+            cov = ((a <= now) & (now < b)) | ((a <= now + 10080) & (now + 10080 < b))
+            exp = cov if exp is False else (exp | cov)
+        else:
+            a = d * 1440 + s
+            b = d * 1440 + e if e > s else (d + 1) * 1440 + e
+            exp = exp or (a <= now < b) or (a <= now + 10080 < b)
+    if ctx.symbolic:
+        g = K.kbool(got)
+        g = g if isinstance(g, K.SBool) else K.SBool(z3.BoolVal(bool(g)))
+        e_ = exp if isinstance(exp, K.SBool) else K.SBool(z3.BoolVal(bool(exp)))
+        # C02 is one-directional: nothing outside the declared hours may count as working time.  (The converse fails on
+        # the unchanged tree for the tail of a cross-midnight shift running into a day without hours of its own - the
+        # Python wrapper returns False early; that loses working time but books nothing outside it.)
+        ctx.check(~g | e_, "WorkingHours.onShift => inside a declared interval (cross-midnight belongs to the day it starts on)")
+    else:
+        ctx.check((not bool(got)) or bool(exp), f"WorkingHours.onShift => inside a declared interval: got {bool(got)} expected {bool(exp)}")
